@@ -390,3 +390,14 @@ func containsStr(xs []string, x string) bool {
 	}
 	return false
 }
+
+// methodOf finds the method named name in the method set of T (nil if there is none).
+func (w *World) methodOf(T types.Type, name string) *ssa.Function {
+	ms := w.prog.MethodSets.MethodSet(T)
+	for i := 0; i < ms.Len(); i++ {
+		if sel := ms.At(i); sel.Obj().Name() == name {
+			return w.prog.MethodValue(sel)
+		}
+	}
+	return nil
+}
